@@ -71,6 +71,11 @@ func c10PureStdCallee(fn *ssa.Function) bool {
 			switch n.Obj().Name() {
 			case "StructTag", "StructField", "Kind":
 				return true
+			case "Value":
+				switch fn.Name() {
+				case "Type", "Kind", "Len", "NumField", "IsNil", "IsValid":
+					return true // reads the descriptor / header of the value only
+				}
 			}
 		}
 		return false
